@@ -687,31 +687,45 @@ func stressWalk(r *hx.Run, rng *hx.Rng) bool {
 }
 
 // stressTwin: the same unsubscribe function called by two goroutines at the same time (unsubscribing is idempotent;
-// OnUpdateOnce itself does `go unsubscribe()` and hands the same function to its caller), with exactly one other
-// subscription on the object, which must go on seeing every change.
-func stressTwin(r *hx.Run, rng *hx.Rng) bool {
+// OnUpdateOnce itself does `go unsubscribe()` and hands the same function to its caller), with one or two other
+// subscriptions on the object, which must go on seeing every change.  Kinds twin-var / twin-set / twin-event (the Set
+// has its own OnUpdate and unsubscribe closure).
+func stressTwin(r *hx.Run, rng *hx.Rng, kind string) bool {
+	base := strings.TrimPrefix(kind, "twin-")
+	sig := func(o string) map[string]string { return map[string]string{"oracle": o, "mode": "stress", "kind": kind} }
 	for attempt := 0; attempt < 40; attempt++ {
-		v := reactive.NewVariable[int]()
+		o := newBarrierObj(base, rng)
 		rd := &round{light: true}
+		writes := 0
+		doWrite := func() {
+			if o.maxWrite > 0 && writes >= o.maxWrite {
+				return
+			}
+			writes++
+			if p := hx.Safely(func() { o.write(writes, rng) }); p != "" {
+				r.Fail("panic", "writer panicked: "+p, sig("panic"))
+			}
+		}
+		if base == "set" {
+			o.sub(rd, rd.newSub(), true) // the reference subscription
+		}
 		b, a := rd.newSub(), rd.newSub()
 		nb := rng.Range(1, 2) // bystanders
 		var c *subLog
-		first := rng.Bool()
-		sub := func(s *subLog) {
-			s.unsub = v.OnUpdate(func(p, nw int) { rd.body(s, strconv.Itoa(p)+":"+strconv.Itoa(nw)) })
-		}
-		if first {
-			sub(a)
-			sub(b)
+		if rng.Bool() {
+			o.sub(rd, a, rng.Bool())
+			o.sub(rd, b, rng.Bool())
 		} else {
-			sub(b)
-			sub(a)
+			o.sub(rd, b, rng.Bool())
+			o.sub(rd, a, rng.Bool())
 		}
 		if nb == 2 {
 			c = rd.newSub()
-			sub(c)
+			o.sub(rd, c, rng.Bool())
 		}
-		v.Set(1)
+		if base != "event" || rng.Bool() {
+			doWrite()
+		}
 		var ready atomic.Int32
 		var wg sync.WaitGroup
 		for g := 0; g < 2; g++ {
@@ -723,12 +737,12 @@ func stressTwin(r *hx.Run, rng *hx.Rng) bool {
 					runtime.Gosched()
 				}
 				if p := hx.Safely(func() { a.unsubbed.Store(true); a.unsub() }); p != "" {
-					r.Fail("panic", "unsubscribe panicked: "+p, map[string]string{"oracle": "panic", "mode": "stress", "kind": "twin-var"})
+					r.Fail("panic", "unsubscribe panicked: "+p, sig("panic"))
 				}
 			}()
 		}
 		if !join(&wg) {
-			r.Fail("timeout", "two concurrent calls of one unsubscribe function did not return", map[string]string{"oracle": "timeout", "mode": "stress", "kind": "twin-var"})
+			r.Fail("timeout", "two concurrent calls of one unsubscribe function did not return", sig("timeout"))
 
 			return false
 		}
@@ -737,20 +751,11 @@ func stressTwin(r *hx.Run, rng *hx.Rng) bool {
 		if c != nil && rng.Bool() {
 			rd.doUnsub(c)
 		}
-		writes := rng.Range(1, 3)
-		if p := hx.Safely(func() {
-			for j := 2; j < 2+writes; j++ {
-				v.Set(j)
-			}
-		}); p != "" {
-			r.Fail("panic", "writer panicked: "+p, map[string]string{"oracle": "panic", "mode": "stress", "kind": "twin-var"})
-		}
-		hist := []string{"0", "1"}
-		for j := 2; j < 2+writes; j++ {
-			hist = append(hist, strconv.Itoa(j))
+		for j := rng.Range(1, 3); j > 0; j-- {
+			doWrite()
 		}
 		before := len(r.Findings)
-		emitSparse(r, "twin-var", "vhist "+strings.Join(hist, " "), rd, strconv.Itoa(v.Get()))
+		emitSparseKind(r, kind, o.histLine(writes), rd, o.lineKind, o.final())
 		if len(r.Findings) > before {
 			return true
 		}
@@ -1059,8 +1064,8 @@ func stressOne(r *hx.Run, kind string, seed uint64) bool {
 		return stressVarx(r, rng)
 	case "walk-var":
 		return stressWalk(r, rng)
-	case "twin-var":
-		return stressTwin(r, rng)
+	case "twin-var", "twin-set", "twin-event":
+		return stressTwin(r, rng, kind)
 	case "barrier-var", "barrier-set", "barrier-event":
 		return stressBarrier(r, rng, kind)
 	case "crowd-var", "crowd-set", "crowd-event", "crowd-dset":
@@ -1106,7 +1111,7 @@ func runStress(r *hx.Run) {
 	rounds := 4000 * r.Scale
 	// the barrier rounds come first: their failing inputs are on file before a broken list can crash or hang a later round
 	kinds := []string{"barrier-var", "barrier-set", "barrier-event", "var", "set", "dset", "var", "crowd-var", "set", "event", "dset", "crowd-set", "var", "set", "crowd-event",
-		"var", "set", "dset", "crowd-var", "event", "set", "crowd-dset", "var", "varx", "varx", "varx", "varx", "varx", "walk-var", "twin-var"}
+		"var", "set", "dset", "crowd-var", "event", "set", "crowd-dset", "var", "varx", "varx", "varx", "varx", "varx", "walk-var", "twin-var", "twin-set", "twin-event"}
 	for i := 0; i < rounds; i++ {
 		seed := r.Rng.U64()
 		kind := kinds[i%len(kinds)]
